@@ -81,6 +81,7 @@ class _Worker:
         self.last = time.time()
         self.open_case = None
         self.open_desc = None
+        self.last_ended = None
         self.done = False
         self.q = queue.Queue()
         self.t = threading.Thread(target=self._read, daemon=True)
@@ -213,6 +214,11 @@ def run_leg(leg, log=None):
                                 suspects.append((k, w.open_desc, "died:%s" % rc))
                                 del workers[s]
                                 workers[s] = _Worker(leg, s, nshards, k + 1, env=leg.get("env"))
+                            elif rc == 78 and w.last_ended is not None:
+                                # deliberate exit right after reporting a verdict (a thread was stuck): carry on
+                                k = w.last_ended
+                                del workers[s]
+                                workers[s] = _Worker(leg, s, nshards, k + 1, env=leg.get("env"))
                             else:
                                 res.harness_errors.append("worker %d exited rc=%s with no open case" % (s, rc))
                                 del workers[s]
@@ -230,6 +236,7 @@ def run_leg(leg, log=None):
                         w.open_desc = j.get("desc")
                     elif ev == "end":
                         _record_end(res, leg, j, w.open_desc)
+                        w.last_ended = j.get("case")
                         w.open_case = None
                         w.open_desc = None
                     elif ev == "diverge":
